@@ -1,23 +1,38 @@
-(* Refinement of the operational engine to the denotational specification on every program without
-   switch_c (used by C02, C03, C04, C13).  Statements only; proofs in Proofs/NetRefine.v.
+(* Refinement of the operational engine to the denotational specification on EVERY program: every
+   definition kind, switch_c included (used by C02, C03, C04, C13).  Statements only; proofs in
+   Proofs/NetRefine.v.
    Model/Net.v = the engine of Model/Engine.v (tied to update_node/end_of_transaction by the C03
-   correspondence: update logs and firings equal) running the transliterated update closures of the
-   primitives, one node per definition plus one spark node per key (the source that value() creates).
-   The wiring is fixed DURING a transaction; switch_s is re-wired by the commit (as in pre_post). *)
-From Coq Require Import List Arith Permutation.
+   correspondence: update logs and firings equal, also for nodes that demand other nodes from inside their
+   update) running the transliterated update closures of the primitives, one node per definition plus one
+   spark node per key (the source that value() creates).
+   The static wiring is fixed DURING a transaction; switch_s and switch_c are re-wired by the commit (as in
+   pre_post / the update closure); within a transaction the node of a switch_c DEMANDS the update stream of
+   the cell it switches to (the dynamic-demand stage of the engine, `update_node2(.., true)` called from
+   inside the update closure of /repo/src/impl_/cell.rs `switch_c`).
+
+   The hypotheses on the wiring, `wired_ok st inj`:
+     switch_targets_ok st  - the outer cell of every switch_s currently refers to a stream, the outer cell of
+                             every switch_c to a cell;
+     demands_ok st inj     - an outer cell of a switch_c that is updated in this transaction is updated to a
+                             reference to a cell (otherwise the specification is Illegal);
+     acyclic_dem st inj    - a rank decreases along every static dependency `ndeps` AND along the demand
+                             `sdem st inj` each switch_c makes in this transaction (the cell its outer cell is
+                             updated to, as the specification computes it).  The POTENTIAL demand targets of a
+                             switch_c (`ndem`: every cell of the program) are not constrained. *)
+From Coq Require Import List ZArith Arith Permutation.
 Import ListNotations.
 From Sodium Require Import Sodium Engine EngineTop Net NetRefine.
 
-(* ONE TRANSACTION: for every program of the fragment (map, filter, merge, snapshot, gate, once, hold,
-   constants, map_c, lift, updates, loops, router/route, switch_s, defer, split, value; any size, any
-   depth of composition, any function codes), every pre-transaction state in which the outer cell of
-   every switch_s refers to a stream and the graph so wired is acyclic, and every set of simultaneous
-   sends / deferred injection: the engine's propagation terminates; every stream node ends with exactly
-   the occurrence the specification assigns, every cell node with exactly the specified update; every
-   update closure ran at most once and only after all of its inputs had settled. *)
+(* ONE TRANSACTION: for every program (sinks, map, filter, merge, snapshot, gate, once, hold, constants,
+   map_c, lift, updates, loops, router/route, switch_s, switch_c, defer, split, value; any size, any depth of
+   composition, any function codes), every pre-transaction state that is wired (above) and every set of
+   simultaneous sends / deferred injection: the engine's propagation terminates; every stream node ends
+   with exactly the occurrence the specification assigns, every cell node with exactly the specified
+   update; every update closure ran at most once and only after all of its inputs - static dependencies
+   and demanded nodes - had settled. *)
 Theorem Refine_transaction : forall st inj,
-    in_fragment st = true -> NoDup (map fst (defs st)) -> refs_ok st = true -> cells_resolved st = true ->
-    switch_targets_ok st = true -> acyclic st ->
+    NoDup (map fst (defs st)) -> refs_ok st = true -> cells_resolved st = true ->
+    switch_targets_ok st = true -> demands_ok st inj = true -> acyclic_dem st inj ->
     exists fires lg,
       net_txn st inj = Some (fires, lg) /\
       length fires = gsize st /\
@@ -29,11 +44,17 @@ Theorem Refine_transaction : forall st inj,
 Proof. exact net_txn_refines. Qed.
 Print Assumptions Refine_transaction.
 
+(* no definition kind is excluded: the former fragment predicate holds of every state *)
+Theorem Refine_fragment_is_everything : forall st, in_fragment st = true.
+Proof. exact in_fragment_all. Qed.
+Print Assumptions Refine_fragment_is_everything.
+
 (* ... for EVERY graph with these dependencies (any registration order of dependents) and EVERY queue
    order of the sources *)
 Theorem Refine_any_order : forall st inj gr fs,
-    in_fragment st = true -> NoDup (map fst (defs st)) -> refs_ok st = true -> cells_resolved st = true ->
-    switch_targets_ok st = true -> acyclic st -> net_graph st gr -> Permutation fs (net_sources st inj) ->
+    NoDup (map fst (defs st)) -> refs_ok st = true -> cells_resolved st = true ->
+    switch_targets_ok st = true -> demands_ok st inj = true -> acyclic_dem st inj ->
+    net_graph st gr -> Permutation fs (net_sources st inj) ->
     exists fires lg,
       net_run st gr fs = Some (fires, lg) /\
       length fires = gsize st /\
@@ -48,8 +69,9 @@ Print Assumptions Refine_any_order.
 (* THE CLOSE of a transaction: listener calls, committed state (cell values, once flags) and the work
    deferred by defer / split are those of the specification *)
 Theorem Refine_close : forall st inj posts fires lg,
-    in_fragment st = true -> NoDup (map fst (defs st)) -> refs_ok st = true -> cells_resolved st = true ->
-    switch_targets_ok st = true -> listeners_ok st = true -> lazies_val st = true -> acyclic st ->
+    NoDup (map fst (defs st)) -> refs_ok st = true -> cells_resolved st = true ->
+    switch_targets_ok st = true -> demands_ok st inj = true -> listeners_ok st = true -> lazies_val st = true ->
+    acyclic_dem st inj ->
     net_txn st inj = Some (fires, lg) ->
     close_txn st inj posts =
     EV (mkRes (net_commit st fires) (net_calls st fires)
@@ -59,14 +81,16 @@ Print Assumptions Refine_close.
 
 (* EVERY HISTORY: transaction after transaction (engine run, listener calls, commit of cell values and
    once flags, switches re-wired) the operational model delivers to every listener exactly what the
-   specification says - provided every state in which a transaction is run is wired (switch targets are
-   streams, no instantaneous cycle): history_ok st txns *)
+   specification says - provided every state in which a transaction is run is wired for what that
+   transaction sends (switch targets are streams / cells, no instantaneous cycle through dependencies and
+   demands): history_ok st txns *)
 Theorem Refine_history : forall txns st, static_ok st -> history_ok st txns ->
     exists os, net_history st txns = Some os /\ spec_history st txns = EV os.
 Proof. exact net_history_refines. Qed.
 Print Assumptions Refine_history.
 
-(* without switch_s the wiring never changes and nothing is assumed of the later states *)
+(* without switch_s and switch_c the wiring never changes, nothing is demanded, and nothing is assumed of the
+   later states *)
 Theorem Refine_history_no_switch : forall txns st, static_ok st -> no_switch st = true -> acyclic st ->
     exists os, net_history st txns = Some os /\ spec_history st txns = EV os.
 Proof. exact net_history_refines_no_switch. Qed.
@@ -83,7 +107,7 @@ Print Assumptions Refine_end_outer.
 
 (* ... with an invariant of the commits in place of the run-dependent predicate: every choice list *)
 Theorem Refine_end_outer_inv : forall P : state -> Prop,
-    (forall st, P st -> wired_ok st) ->
+    (forall st inj, P st -> wired_ok st inj) ->
     (forall st inj fires lg, P st -> net_txn st inj = Some (fires, lg) -> P (net_commit st fires)) ->
     forall choice st, static_ok st -> posts_ok st (posts st) = true -> P st ->
     end_outer choice st = of_opt (net_end_outer choice st).
@@ -103,24 +127,43 @@ Proof. exact net_outer_history_refines. Qed.
 Print Assumptions Refine_outer_history.
 
 (* the static hypotheses are preserved from transaction to transaction; the wiring hypotheses too when
-   there is no switch_s *)
+   there is no switch_s / switch_c *)
 Theorem Refine_hyps_preserved : forall st fires, static_ok st -> static_ok (net_commit st fires).
 Proof. exact static_ok_commit. Qed.
 Print Assumptions Refine_hyps_preserved.
 
-Theorem Refine_wiring_preserved : forall st fires,
-    no_switch st = true -> wired_ok st -> wired_ok (net_commit st fires).
+Theorem Refine_wiring_preserved : forall st fires inj inj',
+    no_switch st = true -> wired_ok st inj -> wired_ok (net_commit st fires) inj'.
 Proof. exact wired_ok_commit_no_switch. Qed.
 Print Assumptions Refine_wiring_preserved.
 
-(* the hypotheses are satisfiable: a 31-definition program with a diamond, a hold, a snapshot, a lift2,
+(* the hypotheses are satisfiable: a 37-definition program with a diamond, a hold, a snapshot, a lift2,
    both kinds of loops, once, a router, a gate, a switch_s over two candidate streams that is re-wired
-   twice during the example histories, a defer, a split and two value()s *)
+   twice during the example histories, a defer, a split, two value()s, and a switch_c between two candidate
+   cells - re-wired three times - one of which is updated in the very transaction of the first switch: the
+   node of the switch_c demands it (sdem = [36]) and fires that update, 201, not the cell's old value *)
 Example Refine_nonvacuous :
-  static_ok ex_st /\ wired_ok ex_st /\ history_ok ex_st ex_txns /\ outer_history_ok ex_st ex_otxns /\
-  (exists c, alookup (defs ex_st) 23 = Some (DSwitchS c)) /\ (exists a, alookup (defs ex_st) 24 = Some (DDefer a)).
+  static_ok ex_st /\ wired_ok ex_st ex_inj /\ history_ok ex_st ex_txns /\ outer_history_ok ex_st ex_otxns /\
+  (exists c, alookup (defs ex_st) 23 = Some (DSwitchS c)) /\ (exists a, alookup (defs ex_st) 24 = Some (DDefer a)) /\
+  (exists c, alookup (defs ex_st) 33 = Some (DSwitchC c)) /\
+  sdem ex_st ex_inj 33 = [36] /\ alookup (cvals ex_st) 36 = Some (VInt 0%Z) /\
+  upd ex_st ex_inj (F ex_st) 36 = EV (Some (VInt 201%Z)) /\ upd ex_st ex_inj (F ex_st) 33 = EV (Some (VInt 201%Z)) /\
+  option_map (fun r => fire_of (fst r) 33) (net_txn ex_st ex_inj) = Some (Some (VInt 201%Z)).
 Proof.
-  exact (conj ex_static_ok (conj ex_wired_ok (conj ex_history_ok (conj ex_outer_history_ok
-          (conj (ex_intro _ 22 eq_refl) (ex_intro _ 23 eq_refl)))))).
+  split; [exact ex_static_ok|]. split; [exact ex_wired_ok|]. split; [exact ex_history_ok|].
+  split; [exact ex_outer_history_ok|]. split; [exact (ex_intro _ 22 eq_refl)|]. split; [exact (ex_intro _ 23 eq_refl)|].
+  split; [exact (ex_intro _ 32 eq_refl)|]. vm_compute. repeat split.
 Qed.
 Print Assumptions Refine_nonvacuous.
+
+(* the acyclicity of the demands is needed: a switch_c that switches to a cell fed by its own output *)
+Example Refine_demand_cycle_excluded :
+  static_ok cd_st /\ switch_targets_ok cd_st = true /\ acyclic cd_st /\
+  demands_ok cd_st [(0, VInt 5%Z)] = true /\ sdem cd_st [(0, VInt 5%Z)] 3 = [6] /\
+  ~ acyclic_dem cd_st [(0, VInt 5%Z)] /\
+  upd cd_st [(0, VInt 5%Z)] (F cd_st) 3 = EErr Illegal.
+Proof.
+  destruct cd_cyclic_demand as (A & B & C & D & E & G & _).
+  exact (conj A (conj B (conj C (conj D (conj E (conj cd_not_acyclic_dem G)))))).
+Qed.
+Print Assumptions Refine_demand_cycle_excluded.
